@@ -1,7 +1,176 @@
-/- C15 — stores never lose an update; watchers never miss the latest state (property theorems). -/
-import OnosVerif.Store.Model
-import OnosVerif.Store.Watch
+/-
+C15 — stores never lose an update; watchers never miss the latest state.
+
+Property theorems only.  The twin (OnosVerif/Store/Model.lean, Watch.lean) mirrors the five stores
+pkg/store/v2/{transaction,proposal,configuration}, pkg/store/v3/{transaction,configuration} over the
+atomix map / indexed map, with guards, Revision++, the IfVersion field, the callee order and the shape
+of every Watch goroutine REGENERATED from the Go sources (OnosVerif/Generated/Facts.lean); it is tied to
+the real stores (atomix in-memory test client) by `harness/props/c15`.
+
+Quantifier: every sequence of operations, by any number of clients, each carrying an arbitrary record
+(arbitrary id, version, revision, values — honest, stale, fabricated), from any store state whose
+entries' versions do not exceed their primitive's clock (`Store.wfb`, a decidable check; true of the
+empty store and preserved by every operation).  A concurrent history of clients of one store is such a
+sequence: every wrapper performs exactly one command on the record's primitive and atomix serialises
+the commands of a primitive; configuration writes additionally perform one earlier command on the side
+map (`C15_refused_write_changes_nothing`).
+-/
+import OnosVerif.Proofs.Store
 
 namespace OnosVerif.Props.C15
+open OnosVerif.Store
+
+/-! ## compare-and-set -/
+
+/-- Two writers that both read the same version of a record cannot both succeed: in every run, of all the
+    `Update`/`UpdateStatus` calls that carry version `v` of record `(sp, key)`, at most one succeeds —
+    for all five stores (the proof uses the regenerated facts "the guards refuse version 0" and
+    "IfVersion(obj.Version) is passed", so it fails to check if a store drops either). -/
+theorem C15_cas_exclusive (s : Store) (hw : s.wfb = true) (ops : List Op) (sp key : Key) (v : Nat) :
+    winners s.kind sp key v (trace s ops) ≤ 1 :=
+  winners_le_one s (s.wf_of_wfb hw) ops sp key v
+
+/-- the same from the empty store of any kind. -/
+theorem C15_cas_exclusive_from_init (k : Kind) (ops : List Op) (sp key : Key) (v : Nat) :
+    winners k sp key v (trace (Store.init k) ops) ≤ 1 := by
+  have := winners_le_one (Store.init k) (wf_init k) ops sp key v
+  simpa [Store.init] using this
+
+/-- Record versions only grow: over any run no record's version decreases (a record that exists keeps
+    existing — the stores have no delete). -/
+theorem C15_versions_grow (s : Store) (hw : s.wfb = true) (ops : List Op) (sp key : Key) :
+    s.version sp key ≤ (run s ops).version sp key :=
+  Prim.version_le_of_le (s.wf_of_wfb hw sp) ((run_le s ops).2 sp) key
+
+/-- … and every successful `Update`/`UpdateStatus` leaves the record with a version strictly above the one
+    it had, which is the (non-zero) version the writer carried. -/
+theorem C15_write_bumps_version (s : Store) (hw : s.wfb = true) (op : Op) (sp key : Key) (v : Nat)
+    (h : isWinner s.kind sp key v (op, step s op) = true) :
+    s.version sp key = v ∧ v ≠ 0 ∧ v < (step s op).store.version sp key := by
+  obtain ⟨h1, h2, h3⟩ := winner_step s op sp key v h
+  refine ⟨h1, h2, ?_⟩
+  have : v ≤ (s.space sp).clock := by rw [← h1]; exact s.wf_of_wfb hw sp key
+  exact Nat.lt_of_le_of_lt this h3
+
+/-- A successful `Create` hands back a version above everything the log has issued and that version is
+    the record's; the key was absent before. -/
+theorem C15_create_fresh (s : Store) (o : Obj) (last : Key) (h : (create s o last).err = none) :
+    (s.space (spaceOf s.kind (create s o last).obj)).clock < (create s o last).obj.version ∧
+    (create s o last).store.version (spaceOf s.kind (create s o last).obj) (createKey s.kind (create s o last).obj)
+      = (create s o last).obj.version ∧
+    ((s.space (spaceOf s.kind (create s o last).obj)).find (createKey s.kind (create s o last).obj)).isNone = true :=
+  (create_ok s o last h).2
+
+/-! ## log indexes -/
+
+/-- the transaction stores (v2 and v3) append to an indexed log (regenerated fact). -/
+theorem C15_tx_stores_are_logs : createIndexed .tx2 = true ∧ createIndexed .tx3 = true := by decide
+
+/-- A log index is never reused: in every run on a transaction store, the indexes handed out by the
+    successful `Create`s of one log are strictly increasing, and all above the log's last index at the
+    start of the run. -/
+theorem C15_index_never_reused (s : Store) (hix : createIndexed s.kind = true) (ops : List Op) (sp : Key) :
+    (∀ i ∈ createdIndexes s.kind sp (trace s ops), (s.space sp).lastIndex < i) ∧
+    (createdIndexes s.kind sp (trace s ops)).Pairwise (· < ·) :=
+  created_increasing s hix ops sp
+
+/-- … each is exactly `last index + 1` (no gaps either). -/
+theorem C15_index_is_next (s : Store) (hix : createIndexed s.kind = true) (o : Obj) (last : Key)
+    (h : (create s o last).err = none) :
+    (create s o last).obj.index = (s.space (spaceOf s.kind (create s o last).obj)).lastIndex + 1 :=
+  ((create_ok s o last h).1 hix).1
+
+/-- … and a record keeps its index for ever (updates never move it). -/
+theorem C15_index_stable (s : Store) (ops : List Op) (sp key : Key) (h : ((s.space sp).find key).isSome = true) :
+    (run s ops).indexOf sp key = s.indexOf sp key :=
+  ((run_leI s ops sp).2 key h).2
+
+
+/-! ## a refused write leaves no trace — except in the configuration stores -/
+
+/-- full statement: whatever a refused `Update`/`UpdateStatus` carried, every later read sees what it
+    would have seen without it. -/
+def RefusedWriteChangesNothing : Prop :=
+  ∀ (s : Store) (m : Meth) (o : Obj) (last : Key), s.wfb = true → (write s m o last).err ≠ none →
+    ∀ q, readBack (write s m o last).store q = readBack s q
+
+/-- the part that holds: in the transaction and proposal stores, and in the configuration stores when
+    the refused write carries no path values, a refused write leaves every entry and every side map
+    untouched (only the log position moves). -/
+theorem C15_refused_write_changes_nothing_partial (s : Store) (m : Meth) (o : Obj) (last : Key)
+    (herr : (write s m o last).err ≠ none) (h : s.kind.isCfg = false ∨ carried m o = none) :
+    (write s m o last).store.sides = s.sides ∧
+    ∀ sp, ((write s m o last).store.space sp).entries = (s.space sp).entries :=
+  write_refused_unchanged s m o last herr h
+
+/-- witness against the full statement (v2 configuration store; the v3 one is built the same way):
+    client A creates configuration `t`; client B updates it; A, still holding version 1, sends an
+    `Update` carrying `/a` (index 7): it is refused with a conflict — and `/a` is stored. -/
+def wCfg : Obj := { id := ['t'], target := ['t'] }
+def wS1 : Store := (create (Store.init .cfg2) wCfg).store
+def wHeld : Obj := (create (Store.init .cfg2) wCfg).obj
+def wS2 : Store := (write wS1 .update { wHeld with payload := 1 }).store
+def wStale : Obj := { wHeld with vals := some [(['/', 'a'], 7)] }
+
+theorem C15_refused_write_changes_nothing_full_fails : ¬ RefusedWriteChangesNothing := by
+  intro h
+  have := h wS2 .update wStale [] (by decide) (by decide) wCfg
+  revert this
+  decide
+
+/-- the values half really runs before the compare-and-set in both configuration stores (regenerated). -/
+theorem C15_cfg_values_first :
+    valuesBeforeCas .cfg2 .update = true ∧ valuesBeforeCas .cfg2 .updateStatus = true ∧ valuesBeforeCas .cfg2 .create = true ∧
+    valuesBeforeCas .cfg3 .update = true ∧ valuesBeforeCas .cfg3 .updateStatus = true ∧ valuesBeforeCas .cfg3 .create = true := by
+  decide
+
+/-! ## what a configuration store keeps of the values it is given -/
+
+/-- full statement "committed and applied values are kept apart": a configuration created with committed
+    values and no applied values is read back without applied values.  False of the twin and of the
+    code (one atomix map `configurations-<id>` serves both sides): -/
+theorem C15_values_sides_separate_full_fails :
+    ∃ (o : Obj), o.avals = none ∧ (create (Store.init .cfg2) o).err = none ∧
+      (readBack (create (Store.init .cfg2) o).store o).map (·.avals) ≠ some none := by
+  refine ⟨{ id := ['t'], target := ['t'], vals := some [(['/', 'a'], 1)] }, rfl, by decide, by decide⟩
+
+/-- full statement "every value of a write is stored under its own path": false of the v3 configuration
+    store, whose `store()` hands `&pv` of the range variable to the atomix transaction — after a
+    `Create` carrying `/a` (index 1) and `/b` (index 2), iterated in that order, both paths hold index 2. -/
+theorem C15_values_stored_exact_full_fails :
+    ∃ (o : Obj), o.vals = some [(['/', 'a'], 1), (['/', 'b'], 2)] ∧
+      (readBack (create (Store.init .cfg3) o ['/', 'b']).store o).map (·.vals)
+        = some (some [(['/', 'a'], 2), (['/', 'b'], 2)]) := by
+  refine ⟨{ id := ['t'], ttype := ['y'], tver := ['1'], vals := some [(['/', 'a'], 1), (['/', 'b'], 2)] }, rfl, by decide⟩
+
+/-- … the v2 store keeps each value (same write, v2 store). -/
+example :
+    (readBack (create (Store.init .cfg2) { id := ['t'], target := ['t'], vals := some [(['/', 'a'], 1), (['/', 'b'], 2)] }).store
+        { id := ['t'] }).map (·.vals) = some (some [(['/', 'a'], 1), (['/', 'b'], 2)]) := by decide
+
+/-- full statement "List returns every record": false of the v3 transaction store, whose `List` returns
+    at the first target log's end — two targets with one transaction each, one listed. -/
+def wTx (t : Char) : Obj := { id := [t], ttype := ['y'], tver := ['1'], key := ['k'] }
+def wTwoLogs : Store := (create (create (Store.init .tx3) (wTx 'a')).store (wTx 'b')).store
+
+theorem C15_list_complete_full_fails :
+    (create (Store.init .tx3) (wTx 'a')).err = none ∧ (create (create (Store.init .tx3) (wTx 'a')).store (wTx 'b')).err = none ∧
+    (list wTwoLogs).length = 1 ∧ (list wTwoLogs "b-y-1".toList).length = 1 := by
+  decide
+
+/-- … every other store lists its whole primitive. -/
+theorem C15_list_complete_partial (s : Store) (h : s.kind ≠ .tx3) (first : Key) :
+    (list s first).length = (s.space []).entries.length := by
+  unfold list
+  cases hk : s.kind <;> simp_all
+
+/-! non-vacuity of the preconditions -/
+
+example : (Store.init .tx2).wfb = true := by decide
+example : wS2.wfb = true := by decide
+example : wS2.kind.isCfg = true ∧ carried .update wStale ≠ none := by decide
+example : (write wS2 .update wStale).err = some .conflict := by decide
+example : isWinner .cfg2 [] ['t'] 1 (.update { wHeld with payload := 1 } [], step wS1 (.update { wHeld with payload := 1 } [])) = true := by decide
+example : createdIndexes .tx3 "a-y-1".toList (trace (Store.init .tx3) [.create (wTx 'a') [], .create { wTx 'a' with key := ['j'] } []]) = [1, 2] := by decide
 
 end OnosVerif.Props.C15
